@@ -2,7 +2,7 @@
 # eval_round.sh <round tag e.g. r3> <seed root prefix e.g. /tmp/seed3-> <props...>
 R=$1; PRE=$2; shift 2
 for p in "$@"; do
-  for m in m1 m2 m3; do
+  for m in m1 m2 m3; do [ -d $PRE$p/$m ] || continue;
     d=$PRE$p/$m
     [ -f $d/patch.diff ] || continue
     s=/tmp/s$R/$p-$R$m; mkdir -p $s; cp $d/* $s/ 2>/dev/null
